@@ -15,15 +15,33 @@ From FT Require Import Model.Base Model.Obs Model.C19Intersect Model.C19Compute 
 Import ListNotations.
 Open Scope Z_scope.
 
+(* Batches may be EMPTY (segs may contain []): a flush before any intersection has run (top
+   of the loop body, a first iteration that skips the inner loop) yields empty traces without
+   even the heading row, which arrives with the first batch that follows an intersection;
+   lead_n segs is the number of such leading empty batches.  Empty batches in the middle and
+   at the end are ordinary (empty) calls. *)
+
 (* two-finger: after every call the model has counted exactly the comparison steps of a
-   two-finger merge of the raw coordinate lists of the intersections fed so far *)
+   two-finger merge of the raw coordinate lists of the intersections fed so far -- for every
+   batching whose first batch is not empty (empty batches anywhere else are covered) *)
 Theorem C19_two_finger : forall all segs,
-  wf_fs (concat segs) = true ->
+  wf_fs (concat segs) = true -> lead_n segs = O ->
   tf_feed all (depth_of (concat segs)) segs = Some (cum 0 (map (total merge_steps) segs)).
 Proof. exact two_finger_thm. Qed.
 Print Assumptions C19_two_finger.
 
-(* skip-ahead: matches plus maximal same-side runs of that merge *)
+(* ... and the side condition is needed: fed an empty FIRST batch the two-finger model raises
+   (IndexError on trace0[0]; the object is unusable afterwards), so its total does depend on
+   that batching.  Replayed on the implementation this is a finding (reported with a proposed
+   fix: guard the header strip with "and trace0", as SkipAheadIntersector does); the check
+   feeds the two-finger object from the first non-empty batch on. *)
+Theorem C19_two_finger_empty_first_refuted :
+  exists all d segs, wf_fs (concat segs) = true /\ concat segs <> [] /\ tf_feed all d segs = None.
+Proof. exact two_finger_empty_first_refuted. Qed.
+Print Assumptions C19_two_finger_empty_first_refuted.
+
+(* skip-ahead: matches plus maximal same-side runs of that merge; every batching, empty
+   batches at the start, in the middle and at the end included *)
 Theorem C19_skip_ahead : forall all segs,
   wf_fs (concat segs) = true ->
   sa_feed all (depth_of (concat segs)) segs = Some (cum 0 (map (total skip_steps) segs)).
@@ -31,34 +49,43 @@ Proof. exact skip_ahead_thm. Qed.
 Print Assumptions C19_skip_ahead.
 
 (* leader-follower: the elements its operand presented (those not beyond every element of
-   the other operand, plus the first one that is) *)
+   the other operand, plus the first one that is); every batching.  While only empty batches
+   have been fed the object reports -1 (it has discounted a heading row that has not arrived
+   yet); from the first non-empty batch on the count is exact *)
 Theorem C19_leader_follower : forall all segs,
   wf_fs (concat segs) = true ->
-  lf_feed false all (depth_of (concat segs)) segs = Some (cum 0 (map (total presented) segs))
+  lf_feed false all (depth_of (concat segs)) segs
+  = Some (repeat (-1) (lead_n segs) ++ skipn (lead_n segs) (cum 0 (map (total presented) segs)))
   /\ lf_feed true all (depth_of (concat segs)) segs
-     = Some (cum 0 (map (total (fun a b => presented b a)) segs)).
+     = Some (repeat (-1) (lead_n segs)
+             ++ skipn (lead_n segs) (cum 0 (map (total (fun a b => presented b a)) segs))).
 Proof. exact leader_follower_thm. Qed.
 Print Assumptions C19_leader_follower.
 
 (* leader-follower STYLE intersections (Fiber.intersection(a, b, style="leader-follower")): the
    leader presents each of its elements once and looks each of them up in the follower once --
    also when the coordinate lies beyond the follower's last stored one or the follower is empty;
-   fed the trace of either operand, under every batching, the model has counted after every
-   call the number of elements the leaders held so far.  No side condition. *)
+   fed the trace of either operand, under every batching (empty batches included), the model
+   has counted after every non-leading call the number of elements the leaders held so far.
+   No side condition. *)
 Theorem C19_leader_follower_style : forall side all d segs,
-  lfs_feed side all d segs = Some (cum 0 (map (total led) segs)).
+  lfs_feed side all d segs
+  = Some (repeat (-1) (lead_n segs) ++ skipn (lead_n segs) (cum 0 (map (total led) segs))).
 Proof. exact lfs_feed_ok. Qed.
 Print Assumptions C19_leader_follower_style.
 
 (* batching: whatever the segmentation of the same sequence of intersections (fiber by
-   fiber, one shot, anything in between) the final totals are the per-fiber sums: no
-   comparison, run or row is charged across two fibers *)
+   fiber, one shot, anything in between, with empty batches anywhere) the final totals are the
+   per-fiber sums: no comparison, run or row is charged across two fibers, and an empty batch
+   changes nothing.  (two-finger: first batch not empty, see above; leader-follower: at
+   least one intersection, otherwise the heading row never arrives and the total stays -1) *)
 Theorem C19_batching : forall all fs segs,
   wf_fs fs = true -> concat segs = fs ->
-  final (tf_feed all (depth_of fs) segs) = Some (total merge_steps fs)
+  (lead_n segs = O -> final (tf_feed all (depth_of fs) segs) = Some (total merge_steps fs))
   /\ final (sa_feed all (depth_of fs) segs) = Some (total skip_steps fs)
-  /\ final (lf_feed false all (depth_of fs) segs) = Some (total presented fs)
-  /\ final (lf_feed true all (depth_of fs) segs) = Some (total (fun a b => presented b a) fs).
+  /\ (fs <> [] ->
+      final (lf_feed false all (depth_of fs) segs) = Some (total presented fs)
+      /\ final (lf_feed true all (depth_of fs) segs) = Some (total (fun a b => presented b a) fs)).
 Proof. exact batching_thm. Qed.
 Print Assumptions C19_batching.
 
@@ -145,7 +172,11 @@ Example C19_nonvacuous :
   /\ tf_feed (map f_id fs) 1 [fs] = Some [4]
   /\ sa_feed (map f_id fs) 1 (split_by [1; 1; 1]%nat fs) = Some [2; 2; 4]
   /\ lf_feed false (map f_id fs) 1 [fs] = Some [4]
-  /\ lf_feed true (map f_id fs) 1 [fs] = Some [5].
+  /\ lf_feed true (map f_id fs) 1 [fs] = Some [5]
+  /\ c19_wf (CI fs [[0; 1; 0; 2; 0]])%nat = true
+  /\ lf_feed true (map f_id fs) 1 (split_by [0; 1; 0; 2; 0]%nat fs) = Some [-1; 2; 2; 5; 5]
+  /\ sa_feed (map f_id fs) 1 (split_by [0; 1; 0; 2; 0]%nat fs) = Some [0; 2; 2; 4; 4]
+  /\ tf_feed (map f_id fs) 1 (split_by [1; 0; 2; 0]%nat fs) = Some [2; 2; 4; 4].
 Proof. vm_compute. repeat split. Qed.
 
 (* non-vacuity of the swap clauses: the three-list tensor of test_num_swaps_undefined_next
